@@ -174,6 +174,9 @@ def rule_c(ctx):
 
 def rule_d(ctx):
     c01.rule_i(ctx)
+    # the final jump of step_until: the queue inspection and the time write are one critical section (C01.g); otherwise a request
+    # accepted in between has a deadline that the jump passes without firing it
+    c01.rule_g(ctx)
 
 
 def rule_e(ctx):
@@ -189,7 +192,7 @@ RULES = [
     ("C08.a", "time read + insert under the queue lock", rule_a),
     ("C08.b", "insert guarded by deadline > now; reject has no effect", rule_b),
     ("C08.c", "null period rejected for every periodic action entering the queue", rule_c),
-    ("C08.d", "time writes hold the queue lock", rule_d),
+    ("C08.d", "time writes hold the queue lock; the final jump of step_until writes only after seeing nothing pending, under the same guard", rule_d),
 ]
 
 
